@@ -40,39 +40,29 @@ Definition out_kwargs (k : kwargs Qc) :=
   (map qout (k_x0 Qc k), map (fun b => qout (fst b)) (k_bounds Qc k), map (fun b => qout (snd b)) (k_bounds Qc k),
    map (fun iv => (Z.of_nat (fst iv), qout (snd iv))) (k_fixed Qc k)).
 
-(* ---- feasibility and the certificate, all exact ---- *)
-Record verdict := {
-  v_affine : bool;            (* the mask leaves at most one free factor per sample: certificate applies *)
-  v_inbox : bool;             (* returned point within the supplied bounds *)
-  v_pos : bool;               (* every Poisson rate positive at the returned point, counts / weights non-negative *)
-  v_wok : bool;               (* witness feasible (in the pinned box, rates positive) *)
-  v_eps : Qc;                 (* eps of kkt_certificate at the returned point *)
-  v_epsw : Qc                 (* eps_witness of kkt_certificate_witness *)
-}.
-Definition certify (M : model QcNum) (mask : list bool) (bounds : list (Qc * Qc)) (star w : list Qc) : verdict :=
-  let m := length star in
-  let box := pinned_box QcNum mask star bounds in
-  match affine_terms QcNum m mask star M with
-  | None => {| v_affine := false; v_inbox := in_boxb QcNum star bounds; v_pos := false; v_wok := false; v_eps := 0%Qc; v_epsw := 0%Qc |}
+(* ---- feasibility and the certificate, all exact ----
+   ref   : a vector holding the supplied values at the fixed coordinates (anything elsewhere)
+   w     : a feasible witness proposed by the (untrusted) polisher, shared by all fits of one problem
+   star  : the returned point of one fit
+   certified excess of f at star over every feasible point:  gapbound terms star w + eps terms w box
+   (theorem kkt_certificate_gap); twice_nll = 2 f + const. *)
+Definition problem_cert (M : model QcNum) (mask : list bool) (bounds : list (Qc * Qc)) (ref w : list Qc) :=
+  let m := length ref in
+  let box := pinned_box QcNum mask ref bounds in
+  match affine_terms QcNum m mask ref M with
+  | None => (false, false, (0%Z, 1%positive))
   | Some terms =>
-      let g := grad QcNum m terms star in
-      let wok := in_boxb QcNum w box && rates_posb QcNum terms w in
-      {| v_affine := shapes_okb QcNum m terms;
-         v_inbox := in_boxb QcNum star bounds;
-         v_pos := rates_posb QcNum terms star;
-         v_wok := wok;
-         (* eps QcNum terms star box, evaluated only when it is needed as the fallback *)
-         v_eps := if wok then 0%Qc else eps_sum QcNum g star box;
-         (* eps_witness QcNum terms star w box, sharing the gradient *)
-         v_epsw := if wok then sadd QcNum (dot QcNum g (vsub QcNum star w)) (eps QcNum terms w box) else 0%Qc |}
+      let wok := Nat.eqb (length w) m && shapes_okb QcNum m terms && in_boxb QcNum w box && rates_posb QcNum terms w in
+      (true, wok, qout (if wok then eps QcNum terms w box else 0%Qc))
   end.
-Lemma certify_eps_unfold terms star box : eps QcNum terms star box = eps_sum QcNum (grad QcNum (length star) terms star) star box.
-Proof. reflexivity. Qed.
-Lemma certify_epsw_unfold terms star w box :
-  eps_witness QcNum terms star w box = sadd QcNum (dot QcNum (grad QcNum (length star) terms star) (vsub QcNum star w)) (eps QcNum terms w box).
-Proof. reflexivity. Qed.
-Definition out_verdict (v : verdict) :=
-  (v_affine v, v_inbox v, v_pos v, v_wok v, qout (v_eps v), qout (v_epsw v)).
+Definition fit_cert (M : model QcNum) (mask : list bool) (bounds : list (Qc * Qc)) (ref star w : list Qc) :=
+  let m := length ref in
+  match affine_terms QcNum m mask ref M with
+  | None => (in_boxb QcNum star bounds, false, (0%Z, 1%positive))
+  | Some terms =>
+      let pos := rates_posb QcNum terms star in
+      (in_boxb QcNum star bounds, pos, qout (if pos then gapbound QcNum terms star w else 0%Qc))
+  end.
 
 (* rates of the own model at a point (diagnostics / validation of the harness-side layout) *)
 Definition model_rates (M : model QcNum) (x : list Qc) : list (Z * positive) :=
